@@ -1,4 +1,5 @@
 from ._expr_common import run_expr_prop
+from .. import core, mt_check
 
 
 def run(tier, seed, verdict):
@@ -9,4 +10,22 @@ def run(tier, seed, verdict):
                                 fault_scenarios=4 if tier == "quick" else 12,
                                 extra_rule="fault enumeration: for the first 4 (thorough: 12) scenarios of every program each "
                                 "throwable point is made to throw in its own run (protocol rules only).")
+    # the property also names schedulers and timers: the scheduler stress harness (every started schedule() completes
+    # exactly once; an accepted item still pending after its context was stopped/destroyed is a lost completion) is run
+    # with this property's verdict on the contexts whose shutdown/idle protocol can drop an accepted operation
+    res = mt_check.MtResult()
+    quick = tier == "quick"
+    a = []
+    for i, (mode, victim) in enumerate((("pool", 411), ("loop", 401), ("timed", 423), ("newthread", 0))):
+        a.append(["seed=%d" % (seed * 100 + 80 + i), "victim=%d" % victim, "mode=" + mode, "iters=%d" % (10 if quick else 100),
+                  "per=%d" % (150 if quick else 400), "threads=%d" % (4 if quick else 8)])
+    mt_check.run_mt("C01", "sched", "asan20d", a, verdict, res, timeout=900, accept=("C01", "C06"))
+    core.require_observed(verdict, [k for k in ("pool_items", "loop_items", "timed_items", "newthread_items")
+                                    if not res.stats.get(k)], "scheduler stress (C01)")
+    cov["scheduler_items"] = res.stats.get("items_total", 0)
+    cov["evaluations"] += res.stats.get("items_total", 0)
+    cov["rule"] += (" Plus the scheduler stress harness (static_thread_pool, manual_event_loop, timed_single_thread_context, "
+                    "new_thread_context): bursts of schedule() operations from several threads separated by idle gaps, the "
+                    "context stopped/destroyed right after the last accepted item; each operation must complete exactly once.")
+    assume.append("scheduler part: an accepted item still pending 30 s after its context was stopped/destroyed is a lost completion")
     return cov, assume, "exploration"
